@@ -462,6 +462,10 @@ fn socket_cases(tier: &str, seed: u64) -> Vec<Case> {
         let mut big = TXT::new();
         big.add_char_string(crate::gen::mk_cs(&[b'x'; 250]));
         responder.add_resource(ResourceRecord::new(name.clone(), CLASS::IN, 10, RData::TXT(big)));
+        // a registered record the serialiser refuses (a LOC record whose public `version` field is not 0): a question for
+        // it produces a reply that cannot be built - one more thing a datagram must not end the service with
+        let loc_name = Name::new_unchecked("verif-c14-loc._tcp.local");
+        responder.add_resource(ResourceRecord::new(loc_name.clone(), CLASS::IN, 10, RData::LOC(simple_dns::rdata::LOC { version: 1, size: 0, horizontal_precision: 0, vertical_precision: 0, latitude: 0, longitude: 0, altitude: 0 })));
         std::thread::sleep(Duration::from_millis(300));
         let sock = UdpSocket::bind("0.0.0.0:0").map_err(|e| format!("bind: {e}"))?;
         sock.set_read_timeout(Some(Duration::from_millis(400))).ok();
@@ -492,6 +496,7 @@ fn socket_cases(tier: &str, seed: u64) -> Vec<Case> {
         for d in [vec![], vec![0u8; 3], vec![0xFFu8; 11]] { let _ = sock.send_to(&d, dest); }
         // replies that no datagram can carry (400 and 1400 copies of a 250-byte TXT record)
         for k in [400usize, 1400] { let _ = sock.send_to(&amplification_query(&name, k), dest); n += 1; }
+        { let mut q = Packet::new_query(0x1416); q.questions.push(Question::new(loc_name.clone(), QTYPE::ANY, CLASS::IN.into(), true)); for _ in 0..3 { let _ = sock.send_to(&q.build_bytes_vec().unwrap(), dest); n += 1; } }
         std::thread::sleep(Duration::from_millis(300));
         if ask(&sock) { Ok(format!("alive after {} datagrams", n)) } else { Err(format!("the responder answered before but not after {} hostile datagrams", n)) }
     });
@@ -534,6 +539,8 @@ fn live_tokio(tier: &str, seed: u64) -> Vec<Case> {
             let mut big = TXT::new();
             big.add_char_string(crate::gen::mk_cs(&[b'x'; 250]));
             responder.add_resource(ResourceRecord::new(name.clone(), CLASS::IN, 10, RData::TXT(big))).await;
+            let loc_name = Name::new_unchecked("verif-c14t-loc._tcp.local");
+            responder.add_resource(ResourceRecord::new(loc_name.clone(), CLASS::IN, 10, RData::LOC(simple_dns::rdata::LOC { version: 1, size: 0, horizontal_precision: 0, vertical_precision: 0, latitude: 0, longitude: 0, altitude: 0 }))).await;
             nap(300).await;
             let mut q = Packet::new_query(0x1415);
             q.questions.push(Question::new(name.clone(), TYPE::A.into(), CLASS::IN.into(), true));
@@ -560,6 +567,7 @@ fn live_tokio(tier: &str, seed: u64) -> Vec<Case> {
                     for d in hostile.iter() { let _ = sock.send_to(d, dest); n += 1; if n % 25 == 0 { nap(5).await; } }
                     for d in [vec![], vec![0u8; 3], vec![0xFFu8; 11]] { let _ = sock.send_to(&d, dest); }
                     for k in [400usize, 1400] { let _ = sock.send_to(&amplification_query(&name, k), dest); }
+                    { let mut q = Packet::new_query(0x1417); q.questions.push(Question::new(loc_name.clone(), QTYPE::ANY, CLASS::IN.into(), true)); for _ in 0..3 { let _ = sock.send_to(&q.build_bytes_vec().unwrap(), dest); } }
                     nap(300).await;
                 } else { after = answered; }
             }
